@@ -25,6 +25,9 @@ pub fn send(mem: &mut Memory, args: &[GcRef], _env: GcRef, recursion_depth: usiz
     let invalid_plist_error = make_error(mem, "invalid-plist", SEND.name, &details);
     let mut dm = DebugMessage::new();
     for d in data.chunks(2) {
+        if d.len() < 2 {
+            return Err(invalid_plist_error);
+        }
         let key =
         if let Some(PrimitiveValue::Symbol(s)) = d[0].get() {
             s.get_name()
